@@ -194,8 +194,8 @@ func propTable() map[string]PropSpec {
 	explPkg := "tkestack.io/kvass/pkg/explore"
 	t["C20"] = PropSpec{
 		ID: "C20", Pkg: explPkg, LoadPkgs: []string{coordPkg}, NativeDir: "explore",
-		Quick:    []HarnessRun{{Entry: "VExploreKernel", Args: []int{1}, Cosim: 6}, {Entry: "VExploreKernel", Args: []int{2}, Cosim: 6}, {Entry: "VCycleExplore", Pkg: coordPkg, Subst: swr, Cosim: 2}, {Entry: "VExploreTable", Args: []int{2}, Cosim: 4}, {Entry: "VExploreRun", Args: []int{1, 1, 1, 2}, Unwind: 40}, {Entry: "VExploreRun", Args: []int{2, 1, 1, 1}, Unwind: 40}},
-		Thorough: []HarnessRun{{Entry: "VExploreRun", Args: []int{1, 1, 2, 2}, Unwind: 60}, {Entry: "VExploreRun", Args: []int{2, 1, 1, 2}, Unwind: 60}, {Entry: "VExploreRun", Args: []int{1, 2, 1, 2}, Unwind: 60}, {Entry: "VExploreRun", Args: []int{2, 2, 1, 1}, Unwind: 60}, {Entry: "VExploreKernel", Args: []int{1}, Cosim: 8}, {Entry: "VExploreKernel", Args: []int{2}, Cosim: 8}, {Entry: "VCycleExplore", Pkg: coordPkg, Subst: swr, Cosim: 2}, {Entry: "VExploreTable", Args: []int{3}, Cosim: 4}},
+		Quick:    []HarnessRun{{Entry: "VExploreKernel", Args: []int{1}, Cosim: 6}, {Entry: "VExploreKernel", Args: []int{2}, Cosim: 6}, {Entry: "VCycleExplore", Pkg: coordPkg, Subst: swr, Cosim: 2}, {Entry: "VExploreTable", Args: []int{2}, Cosim: 4}, {Entry: "VExploreRun", Args: []int{1, 1, 1, 2, 0}, Unwind: 40}, {Entry: "VExploreRun", Args: []int{2, 1, 1, 2, 0}, Unwind: 40}, {Entry: "VExploreRun", Args: []int{2, 1, 1, 2, 1}, Unwind: 40}},
+		Thorough: []HarnessRun{{Entry: "VExploreRun", Args: []int{1, 1, 2, 3, 0}, Unwind: 60}, {Entry: "VExploreRun", Args: []int{2, 1, 2, 2, 0}, Unwind: 60}, {Entry: "VExploreRun", Args: []int{2, 2, 1, 2, 0}, Unwind: 60}, {Entry: "VExploreRun", Args: []int{2, 2, 1, 2, 1}, Unwind: 60}, {Entry: "VExploreRun", Args: []int{3, 1, 1, 2, 1}, Unwind: 60}, {Entry: "VExploreKernel", Args: []int{1}, Cosim: 8}, {Entry: "VExploreKernel", Args: []int{2}, Cosim: 8}, {Entry: "VCycleExplore", Pkg: coordPkg, Subst: swr, Cosim: 2}, {Entry: "VExploreTable", Args: []int{3}, Cosim: 4}},
 		Required: []string{"explore.ok", "explore.failed", "explore.end", "explorecycle.ok", "explorecycle.failed", "run.retry", "run.act.update.same", "run.act.update.less", "run.act.reload.keep", "run.end"},
 		Prefixes: []string{"C20."},
 		Bounds:   "sequential kernel: Get / exploreOnce / UpdateTargets on a table of <= 2 targets with a scripted probe (success with symbolic counts < 2^30, failure, unknown job); estimate through the real UpdateScrapeResult in floating-point theory; the first-assignment clause on the observable: two real coordination cycles (one in-sync shard with room, one target) around one scripted probe with the real Explore.Get as the coordinator's estimate source; bounded thread model: the real Explore.Run with W <= 1 probe workers (thorough 2), its retry goroutines and a driver goroutine (K <= 2 targets looked up, then one of: nothing, the same targets discovered again, target 1 removed, a reload keeping the job) under every schedule with context switches at synchronisation operations and <= 2 preemptions (quick K=2: 1), at most F = 1 failing probes (thorough 2), a probe that yields in the middle, time.Sleep advancing a symbolic clock by at least its argument; checked at quiescence: every asked-for target still discovered has the estimate of its successful probe, no probe after success, one probe in flight per target, a retry not before the retry interval, queue drained, Run returns on cancel",
